@@ -389,7 +389,7 @@ func genRules(r *kit.Rng, maxLen int) kit.Case {
 				down := r.Chance(22)
 				switch {
 				case down:
-					dt := []string{"DynamicSampler", "EMADynamicSampler", "TotalThroughputSampler", "DeterministicSampler"}[r.Intn(4)]
+					dt := []string{"DynamicSampler", "EMADynamicSampler", "TotalThroughputSampler"}[r.Intn(3)] // the v1 downstream samplers
 					genSamplerFields(r, style, dt,
 						func(k string, v val) {
 							ops = append(ops, fmt.Sprintf("rdown %s %d %s %s %s", ds, i, kit.Enc(dt), kit.Enc(k), v.String()))
